@@ -11,6 +11,7 @@ import (
 	"flag"
 	"fmt"
 	"os"
+	"os/exec"
 	"path/filepath"
 	"runtime"
 	"runtime/debug"
@@ -270,6 +271,7 @@ func cmdCheck(args []string) int {
 	}
 	if *tier == "thorough" {
 		cov["mutants"] = runMutants(chk.ID, false)
+		cov["seeded_changes"] = runSeeds(chk.ID, false)
 	}
 	ev := report.Evidence{PropertyID: chk.ID, Tier: *tier, Seed: seed, Level: "other", Coverage: cov,
 		Assumptions: append([]string{"the claim is the named structural clause only (necessary condition), not the behaviour over all inputs/schedules"}, chk.Trusted...),
@@ -474,6 +476,13 @@ func cmdSelftest(args []string) int {
 	prop := fs.String("prop", "", "restrict to one property")
 	fs.Parse(args)
 	outs := runMutants(*prop, true)
+	for _, so := range runSeeds(*prop, true) {
+		o := mutantOutcome{ID: "seed " + so.ID, Outcome: so.Outcome, Detail: so.Detail}
+		if o.Outcome == "detected" {
+			o.Outcome = "killed"
+		}
+		outs = append(outs, o)
+	}
 	bad := 0
 	count := map[string]int{}
 	for _, o := range outs {
@@ -608,4 +617,129 @@ func cmdManifest() int {
 	b, _ := json.MarshalIndent(m, "", " ")
 	fmt.Println(string(b))
 	return 0
+}
+
+// ---------------------------------------------------------------------------
+// seeded changes (kept under /verif/seeded/<id>/patch.diff): re-detection through overlays
+
+type seedOutcome struct {
+	ID      string `json:"id"`
+	Outcome string `json:"outcome"` // detected | missed | not-applicable | error
+	Detail  string `json:"detail,omitempty"`
+}
+
+func runSeeds(prop string, verbose bool) []seedOutcome {
+	dirs, _ := filepath.Glob(filepath.Join(verifDir, "seeded", "*"))
+	sort.Strings(dirs)
+	type job struct {
+		id, dir, prop string
+	}
+	var jobs []job
+	for _, d := range dirs {
+		b, err := os.ReadFile(filepath.Join(d, "meta.json"))
+		if err != nil {
+			continue
+		}
+		var m struct {
+			ID    string `json:"id"`
+			Prop  string `json:"breaks_property"`
+			Check string `json:"check_result"`
+		}
+		if json.Unmarshal(b, &m) != nil || (prop != "" && m.Prop != prop) || m.Check == "missed" {
+			continue
+		}
+		jobs = append(jobs, job{m.ID, d, m.Prop})
+	}
+	outs := make([]seedOutcome, len(jobs))
+	var wg sync.WaitGroup
+	sem := make(chan struct{}, 6)
+	for i, j := range jobs {
+		wg.Add(1)
+		go func(i int, j job) {
+			defer wg.Done()
+			sem <- struct{}{}
+			defer func() { <-sem }()
+			outs[i] = runSeed(j.id, j.dir, j.prop)
+			if verbose {
+				fmt.Printf("  seed   %-40s %s %s\n", j.id, outs[i].Outcome, outs[i].Detail)
+			}
+		}(i, j)
+	}
+	wg.Wait()
+	return outs
+}
+
+func runSeed(id, dir, prop string) (out seedOutcome) {
+	out.ID = id
+	defer func() {
+		if r := recover(); r != nil {
+			out.Outcome, out.Detail = "error", fmt.Sprintf("panic: %v", r)
+		}
+	}()
+	chk := rules.Get(prop)
+	patch, err := os.ReadFile(filepath.Join(dir, "patch.diff"))
+	if chk == nil || err != nil {
+		out.Outcome, out.Detail = "error", "no patch / unknown property"
+		return
+	}
+	// files touched by the patch
+	var files []string
+	for _, l := range strings.Split(string(patch), "\n") {
+		if strings.HasPrefix(l, "+++ b/") {
+			files = append(files, strings.TrimSpace(strings.TrimPrefix(l, "+++ b/")))
+		}
+	}
+	tmp, err := os.MkdirTemp("", "verif-seed-")
+	if err != nil {
+		out.Outcome, out.Detail = "error", err.Error()
+		return
+	}
+	defer os.RemoveAll(tmp)
+	for _, f := range files {
+		src, err := os.ReadFile(filepath.Join(repoDir, f))
+		if err != nil {
+			// a file the patch creates
+			src = nil
+		}
+		os.MkdirAll(filepath.Dir(filepath.Join(tmp, f)), 0o755)
+		if src != nil {
+			os.WriteFile(filepath.Join(tmp, f), src, 0o644)
+		}
+	}
+	cmd := exec.Command("patch", "-p1", "-s", "-f", "-d", tmp, "-i", filepath.Join(dir, "patch.diff"))
+	if b, err := cmd.CombinedOutput(); err != nil {
+		out.Outcome, out.Detail = "not-applicable", "patch does not apply to the current tree: "+strings.TrimSpace(string(b))
+		return
+	}
+	overlay := map[string][]byte{}
+	for _, f := range files {
+		b, err := os.ReadFile(filepath.Join(tmp, f))
+		if err == nil {
+			overlay[filepath.Join(repoDir, f)] = b
+		}
+	}
+	p, err := loadFor(chk, primary, overlay)
+	if err != nil {
+		out.Outcome, out.Detail = "error", "does not load: "+err.Error()
+		return
+	}
+	res := rules.RunCheck(chk, p, primary.String())
+	findings, _ := report.LoadFindings(filepath.Join(verifDir, "KNOWN_FINDINGS.txt"))
+	open := map[string]bool{}
+	for _, f := range findings {
+		if f.Open {
+			open[f.Key] = true
+		}
+	}
+	for _, o := range res.Obligations {
+		if o.Status == report.Violated && !open[o.Key] {
+			out.Outcome, out.Detail = "detected", o.Key
+			return
+		}
+	}
+	out.Outcome = "missed"
+	if len(res.Errors) > 0 {
+		out.Detail = "check-error: " + strings.Join(res.Errors, "; ")
+	}
+	return
 }
